@@ -1446,35 +1446,35 @@ pub proof fn lemma_first_bytes(bs: Seq<u8>, o: int)
         starts_with_at(bs, o, lit("}")) == (0 <= o < bs.len() && bs[o] == 0x7D),
         starts_with_at(bs, o, lit("(")) == (0 <= o < bs.len() && bs[o] == 0x28),
         starts_with_at(bs, o, lit(")")) == (0 <= o < bs.len() && bs[o] == 0x29),
-        starts_with_at(bs, o, lit("..")) == (0 <= o && o + 2 <= bs.len() && bs[o] == 0x2E && bs[o + 1] == 0x2E),
+        lit("..").len() == 2 && starts_with_at(bs, o, lit("..")) == (0 <= o && o + 2 <= bs.len() && bs[o] == 0x2E && bs[o + 1] == 0x2E),
         starts_with_at(bs, o, lit(".")) == (0 <= o < bs.len() && bs[o] == 0x2E),
         starts_with_at(bs, o, lit("+")) == (0 <= o < bs.len() && bs[o] == 0x2B),
         starts_with_at(bs, o, lit("-")) == (0 <= o < bs.len() && bs[o] == 0x2D),
         starts_with_at(bs, o, lit("*")) == (0 <= o < bs.len() && bs[o] == 0x2A),
         starts_with_at(bs, o, lit("/")) == (0 <= o < bs.len() && bs[o] == 0x2F),
-        starts_with_at(bs, o, lit("%%")) == (0 <= o && o + 2 <= bs.len() && bs[o] == 0x25 && bs[o + 1] == 0x25),
+        lit("%%").len() == 2 && starts_with_at(bs, o, lit("%%")) == (0 <= o && o + 2 <= bs.len() && bs[o] == 0x25 && bs[o + 1] == 0x25),
         starts_with_at(bs, o, lit("%")) == (0 <= o < bs.len() && bs[o] == 0x25),
-        starts_with_at(bs, o, lit("==")) == (0 <= o && o + 2 <= bs.len() && bs[o] == 0x3D && bs[o + 1] == 0x3D),
-        starts_with_at(bs, o, lit("!=")) == (0 <= o && o + 2 <= bs.len() && bs[o] == 0x21 && bs[o + 1] == 0x3D),
+        lit("==").len() == 2 && starts_with_at(bs, o, lit("==")) == (0 <= o && o + 2 <= bs.len() && bs[o] == 0x3D && bs[o + 1] == 0x3D),
+        lit("!=").len() == 2 && starts_with_at(bs, o, lit("!=")) == (0 <= o && o + 2 <= bs.len() && bs[o] == 0x21 && bs[o + 1] == 0x3D),
         starts_with_at(bs, o, lit("~")) == (0 <= o < bs.len() && bs[o] == 0x7E),
-        starts_with_at(bs, o, lit("!~")) == (0 <= o && o + 2 <= bs.len() && bs[o] == 0x21 && bs[o + 1] == 0x7E),
+        lit("!~").len() == 2 && starts_with_at(bs, o, lit("!~")) == (0 <= o && o + 2 <= bs.len() && bs[o] == 0x21 && bs[o + 1] == 0x7E),
         starts_with_at(bs, o, lit(">")) == (0 <= o < bs.len() && bs[o] == 0x3E),
-        starts_with_at(bs, o, lit(">=")) == (0 <= o && o + 2 <= bs.len() && bs[o] == 0x3E && bs[o + 1] == 0x3D),
-        starts_with_at(bs, o, lit("<=")) == (0 <= o && o + 2 <= bs.len() && bs[o] == 0x3C && bs[o + 1] == 0x3D),
+        lit(">=").len() == 2 && starts_with_at(bs, o, lit(">=")) == (0 <= o && o + 2 <= bs.len() && bs[o] == 0x3E && bs[o + 1] == 0x3D),
+        lit("<=").len() == 2 && starts_with_at(bs, o, lit("<=")) == (0 <= o && o + 2 <= bs.len() && bs[o] == 0x3C && bs[o + 1] == 0x3D),
         starts_with_at(bs, o, lit("<")) == (0 <= o < bs.len() && bs[o] == 0x3C),
         starts_with_at(bs, o, lit("=")) == (0 <= o < bs.len() && bs[o] == 0x3D),
         starts_with_at(bs, o, lit(";")) == (0 <= o < bs.len() && bs[o] == 0x3B),
-        starts_with_at(bs, o, lit("::")) == (0 <= o && o + 2 <= bs.len() && bs[o] == 0x3A && bs[o + 1] == 0x3A),
+        lit("::").len() == 2 && starts_with_at(bs, o, lit("::")) == (0 <= o && o + 2 <= bs.len() && bs[o] == 0x3A && bs[o + 1] == 0x3A),
         starts_with_at(bs, o, lit(":")) == (0 <= o < bs.len() && bs[o] == 0x3A),
         starts_with_at(bs, o, lit("[")) == (0 <= o < bs.len() && bs[o] == 0x5B),
         starts_with_at(bs, o, lit("]")) == (0 <= o < bs.len() && bs[o] == 0x5D),
-        starts_with_at(bs, o, lit("=>")) == (0 <= o && o + 2 <= bs.len() && bs[o] == 0x3D && bs[o + 1] == 0x3E),
-        starts_with_at(bs, o, lit("&&")) == (0 <= o && o + 2 <= bs.len() && bs[o] == 0x26 && bs[o + 1] == 0x26),
-        starts_with_at(bs, o, lit("||")) == (0 <= o && o + 2 <= bs.len() && bs[o] == 0x7C && bs[o + 1] == 0x7C),
+        lit("=>").len() == 2 && starts_with_at(bs, o, lit("=>")) == (0 <= o && o + 2 <= bs.len() && bs[o] == 0x3D && bs[o + 1] == 0x3E),
+        lit("&&").len() == 2 && starts_with_at(bs, o, lit("&&")) == (0 <= o && o + 2 <= bs.len() && bs[o] == 0x26 && bs[o + 1] == 0x26),
+        lit("||").len() == 2 && starts_with_at(bs, o, lit("||")) == (0 <= o && o + 2 <= bs.len() && bs[o] == 0x7C && bs[o + 1] == 0x7C),
         starts_with_at(bs, o, lit("|")) == (0 <= o < bs.len() && bs[o] == 0x7C),
         starts_with_at(bs, o, lit("select")) ==> 0 <= o < bs.len() && bs[o] == 0x73,
-        starts_with_at(bs, o, lit("in")) == (0 <= o && o + 2 <= bs.len() && bs[o] == 0x69 && bs[o + 1] == 0x6E),
-        starts_with_at(bs, o, lit("is")) == (0 <= o && o + 2 <= bs.len() && bs[o] == 0x69 && bs[o + 1] == 0x73),
+        lit("in").len() == 2 && starts_with_at(bs, o, lit("in")) == (0 <= o && o + 2 <= bs.len() && bs[o] == 0x69 && bs[o + 1] == 0x6E),
+        lit("is").len() == 2 && starts_with_at(bs, o, lit("is")) == (0 <= o && o + 2 <= bs.len() && bs[o] == 0x69 && bs[o + 1] == 0x73),
         starts_with_at(bs, o, lit("not")) ==> 0 <= o < bs.len() && bs[o] == 0x6E,
         starts_with_at(bs, o, lit("TRACE")) ==> 0 <= o < bs.len() && bs[o] == 0x54,
         starts_with_at(bs, o, lit("fail")) ==> 0 <= o < bs.len() && bs[o] == 0x66,
@@ -1487,7 +1487,7 @@ pub proof fn lemma_first_bytes(bs: Seq<u8>, o: int)
         starts_with_at(bs, o, lit("out")) ==> 0 <= o < bs.len() && bs[o] == 0x6F,
         starts_with_at(bs, o, lit("constraint")) ==> 0 <= o < bs.len() && bs[o] == 0x63,
         starts_with_at(bs, o, lit("convert")) ==> 0 <= o < bs.len() && bs[o] == 0x63,
-        starts_with_at(bs, o, lit("as")) == (0 <= o && o + 2 <= bs.len() && bs[o] == 0x61 && bs[o + 1] == 0x73),
+        lit("as").len() == 2 && starts_with_at(bs, o, lit("as")) == (0 <= o && o + 2 <= bs.len() && bs[o] == 0x61 && bs[o + 1] == 0x73),
         starts_with_at(bs, o, lit("map")) ==> 0 <= o < bs.len() && bs[o] == 0x6D,
         starts_with_at(bs, o, lit("filter")) ==> 0 <= o < bs.len() && bs[o] == 0x66,
         starts_with_at(bs, o, lit("reduce")) ==> 0 <= o < bs.len() && bs[o] == 0x72,
